@@ -180,6 +180,28 @@ def _worker(src):
             bad.append("re-loaded version-2 program has a different circuit")
     except Exception as e:
         bad.append("printed program does not load/unroll again: %s: %s" % (type(e).__name__, str(e)[:100]))
+    # a call interrupted before / during the visit (here: a misspelt keyword argument, TypeError) leaves no trace: the
+    # next unroll() prints the same version-2 program as on a module that never saw the failure
+    for failing in (dict(external_gate=["h"]), dict(external_gates=7)):
+        try:
+            mf = pyqasm.loads(src)
+            try:
+                mf.unroll(**failing)
+                continue                     # not rejected: nothing to compare
+            except Exception:
+                pass
+            mf.unroll()
+            if pyqasm.dumps(mf) != text:
+                bad.append("after an interrupted unroll(%s) the next unroll() prints a different program: %r..." % (failing, pyqasm.dumps(mf)[:60]))
+            if has_phase:
+                continue                     # transformations of a version-2 module holding a gphase: the known finding's business
+            for step in ("remove_barriers", "reverse_qubit_order"):
+                getattr(mf, step)()
+            t2 = pyqasm.dumps(mf)
+            if not t2.startswith("OPENQASM 2.0;") or not isinstance(pyqasm.loads(t2), Qasm2Module):
+                bad.append("after an interrupted unroll(%s), unroll() and transformations the module does not print a version-2 program" % (failing,))
+        except Exception as e:
+            bad.append("module unusable after an interrupted unroll(%s): %s: %s" % (failing, type(e).__name__, str(e)[:100]))
     for as_str in (True, False):
         try:
             c = pyqasm.loads(src).to_qasm3(as_str=as_str)
